@@ -177,6 +177,8 @@ def run(res, tier, seed):
         for cond in ("backwards", "backwards-far", "header-hours-off", "header-year0", "header-year9999", "header-day0",
                      "header-day400", "header-ms-big", "header-beyond-9999"):
             p = tg.clean_pass(rng, fmt, rng.choice([5, 30, 120]), "plain")
+            while cond == "backwards-far" and p["nums"][0] <= 150:
+                p = tg.clean_pass(rng, fmt, rng.choice([30, 120]), "plain")
             hx = None
             if cond.startswith("backwards"):
                 n = len(p["nums"])
@@ -213,6 +215,9 @@ def run(res, tier, seed):
                     pass
                 r, t = tg.read_times(fmt, data)
                 ok = isinstance(t, np.ndarray) and np.issubdtype(t.dtype, np.datetime64) and len(t) == len(r.scans)
+                if ok and hx is None and [int(x) for x in r.scans["scan_line_number"]] == list(p["nums"]) and len(p["nums"]) <= 900:
+                    # the values: the model (stage 1, then the refusal of stage 2) must give the very times the reader returns
+                    coq.append((coq_case(dict(p), tg.to_ms_array(t)), dict(ctx, fallback=True)))
             except Exception as e:  # noqa
                 if fam == "pod" and hx is not None and not isinstance(e, (AttributeError, TypeError, KeyError, IndexError)):
                     # a POD file whose header start time is garbage cannot even be opened (the header layout is chosen
